@@ -35,7 +35,7 @@ def main():
         if a.startswith("--repo="):
             REPO = a.split("=", 1)[1]
     scratch = REPO != "/repo"
-    cenv = dict(os.environ, VERIF_REPO=REPO, PYTHONPATH=REPO) if scratch else None
+    cenv = dict(os.environ, VERIF_REPO=REPO, PYTHONPATH=REPO, VERIF_EVIDENCE_DIR="/root/scratch/evidence_of_seeded_runs") if scratch else dict(os.environ, VERIF_EVIDENCE_DIR="/root/scratch/evidence_of_seeded_runs")
     rc, out = sh("git status --porcelain -- pycaption", cwd=REPO)
     if out.strip():
         print("REFUSING: /repo has uncommitted changes")
